@@ -1,5 +1,5 @@
 From Coq Require Import List NArith Bool.
-From V.C13 Require Import Model Proofs.
+From V.C13 Require Import Model Proofs Flush.
 Import ListNotations.
 Open Scope N_scope.
 From V.C13 Require Import Properties.
@@ -19,6 +19,24 @@ Check (C13_exactly_one_contract :
     discharged (grun cf g0 (run_steps cf (init_pst, init_env) evs)) ->
     In (OSent r) (snd res) ->
     terms r (snd res) = 1%nat \/ In r (cancel_reqs evs)).
+Check (C13_exactly_one_flushed :
+  forall (cf : cfg) (evs : list ev) (r : N),
+    0 < tmo cf ->
+    let g := grun cf g0 (run_steps cf (init_pst, init_env) evs) in
+    let res := run cf (init_pst, init_env) (evs ++ flush_evs cf g) in
+    In (OSent r) (snd res) ->
+    terms r (snd res) = 1%nat \/ In r (cancel_reqs evs)).
+Check (C13_flush_discharges :
+  forall (cf : cfg) (evs : list ev) (ds cs : list N) (dt : N),
+    0 < tmo cf -> tmo cf < dt ->
+    let g := grun cf g0 (run_steps cf (init_pst, init_env) evs) in
+    (forall p, In p (g_dials g) -> In p ds) -> (forall p, In p (g_conn g) -> In p cs) ->
+    discharged (grun cf g0 (run_steps cf (init_pst, init_env) (evs ++ flush_of ds cs dt)))).
+Check (C13_opens_on_connections :
+  forall (cf : cfg) (evs : list ev) (sid p : N),
+    0 < tmo cf ->
+    let g := grun cf g0 (run_steps cf (init_pst, init_env) evs) in
+    In (sid, p) (g_opens g) -> In p (g_conn g)).
 Check (C13_exactly_one_settled :
   forall (cf : cfg) (evs : list ev) (r : N),
     let res := run cf (init_pst, init_env) evs in
